@@ -1,8 +1,11 @@
-//go:build verif
+//go:build verif && verif_c09wb
 
 /*
- * Verification hook for property C09 (build tag "verif"): read-only inspection of what a
- * compiled runnable keeps between runs.
+ * Verification hook for property C09 (build tags verif && verif_c09wb): read-only inspection of what a
+ * compiled runnable keeps between runs.  It names unexported types and fields of this package, so it is
+ * the white-box group of C09: only the C09 harness asks for it (and can be built without it), so a rename
+ * that this file does not follow cannot stop the other properties' harnesses (built with -tags verif)
+ * from compiling.
  *
  *   VerifC09Snapshot(roots...)  a canonical, line-per-leaf rendering of everything reachable
  *       from the given values by typed reflection (unexported fields included): scalars,
